@@ -153,6 +153,22 @@ Theorem c16_clone_bisimilar_gp_partial :
 Proof. intros C M meqb ms. exact (mb_get_config_eqv C M meqb ms). Qed.
 Print Assumptions c16_clone_bisimilar_gp_partial.
 
+(* the snapshot carries the tuning-job state as it is: configurations, observed and failed trials and
+   the pending evaluations IN THEIR REGISTRATION ORDER (the order fixes the rows of the joint fantasy
+   sample), and the remaining initial points; nothing that get_config reads is recomputed on restore
+   except the internal random searcher *)
+Theorem c16_clone_gp_state_components :
+  forall (C M : Type) (s : mb_state C M),
+  let c := mb_clone C M s (mb_get_state C M s) in
+  tj_pending C (mb_tj C M c) = tj_pending C (mb_tj C M s) /\
+  tj_cfg C (mb_tj C M c) = tj_cfg C (mb_tj C M s) /\
+  tj_obs C (mb_tj C M c) = tj_obs C (mb_tj C M s) /\
+  tj_failed C (mb_tj C M c) = tj_failed C (mb_tj C M s) /\
+  mb_p2e C M c = mb_p2e C M s /\ mb_num_init C M c = mb_num_init C M s /\
+  mb_allow_dup C M c = mb_allow_dup C M s /\ mb_size C M c = mb_size C M s.
+Proof. intros C M s. repeat split; reflexivity. Qed.
+Print Assumptions c16_clone_gp_state_components.
+
 (* allow_duplicates = True: FULL bisimulation at run level. For every constructor arguments,
    every history (suggestions, finite / non-finite results, failures), every snapshot point and
    every continuation, the clone's answers are identical to the original's: with
